@@ -230,6 +230,7 @@ struct World : sim::configuration
 	sim::simulation* simp = nullptr;
 	std::unique_ptr<sim::simulation> sim_holder;
 	std::vector<std::unique_ptr<sa::io_context>> ios;
+	std::unique_ptr<sa::high_resolution_timer> build_timer;
 
 	explicit World(Topology t) : topo(std::move(t))
 	{
@@ -248,6 +249,7 @@ struct World : sim::configuration
 					, (unsigned long long)e.seq, (unsigned long long)e.hash, e.from.address().to_string().c_str(), e.from.port(), e.byte_counter);
 			for (auto const& n : dns_log) t += "dns " + n + "\n";
 		}
+		build_timer.reset();
 		ios.clear();
 		sim_holder.reset();
 	}
@@ -278,7 +280,19 @@ struct World : sim::configuration
 	}
 
 	// ---- sim::configuration
-	void build(sim::simulation& s) override { simp = &s; }
+	void build(sim::simulation& s) override
+	{
+		simp = &s;
+		// a configuration may arm timers while it is being built (a scheduled link outage, say). When a trace is being
+		// recorded (C01) every World does: the instant at which this timer fires must not depend on what ran earlier in
+		// the process (the virtual clock is a process-wide global that the simulation resets when it is constructed)
+		if (trace_sink())
+		{
+			build_timer.reset(new sa::high_resolution_timer(s.get_io_context()));
+			build_timer->expires_after(ns(1234567));
+			build_timer->async_wait([](boost::system::error_code const& ec) { if (!ec) trace_line(fmt("build_timer fired t=%lld", now_ns())); });
+		}
+	}
 	void clear() override
 	{
 		for (auto& f : fault_sinks) f->clear();
